@@ -6,6 +6,7 @@ use vstd::prelude::*;
 verus! {
 //@@SPEC vocab.rs@@
 //@@SPEC std_saturating.rs@@
+//@@SPEC std_minmax.rs@@
 //@@SPEC contracts/integer_variable_consumer.rs@@
 //@@SPEC prop_ctx.rs@@
 broadcast use {conv_axioms::axiom_from_empty_domain, seq_lemmas::lemma_seq_holds_push};
@@ -18,6 +19,13 @@ pub proof fn axiom_eval_in_i32<V: IntegerVariable>(v: &V, a: Asg)
 #[verifier::external_body]
 pub proof fn lemma_bounds<V: IntegerVariable>(live: Live, v: &V, a: Asg)
     requires live(a) ensures v.eval(a) >= store_lb(live, v), v.eval(a) <= store_ub(live, v) {}
+// A-READS for membership: a value the store reports outside the domain is taken by no live assignment; the store only shrinks
+#[verifier::external_body]
+pub proof fn lemma_not_contained<V: IntegerVariable>(live: Live, v: &V, i: int, a: Asg)
+    requires !dom_contains(live, v, i), live(a) ensures v.eval(a) != i {}
+#[verifier::external_body]
+pub proof fn lemma_contained_mono<V: IntegerVariable>(l0: Live, l1: Live, v: &V, i: int)
+    requires dom_contains(l1, v, i), forall|a: Asg| #![trigger l1(a)] l1(a) ==> l0(a) ensures dom_contains(l0, v, i) {}
 pub open spec fn witnessed<V: IntegerVariable>(live: Live, var: &V, v: int) -> bool { exists|a: Asg| #![trigger live(a)] live(a) && var.eval(a) == v }
 impl<'a> PropagationContextMut<'a> {
     // ReadDomains::iterate_domain, evaluated once: the values of the variable's domain (each is taken in some live assignment)
@@ -50,19 +58,49 @@ pub proof fn lemma_removals_shrink<VI: IntegerVariable>(l0: Live, l1: Live, c: M
     assert forall|k: int| #![trigger v@[k]] 0 <= k < v@.len() implies removal_ok(l1, c, index, v@[k]) by { assert(removal_ok(l0, c, index, v@[k])); }
 }
 
-impl<VX: IntegerVariable, VI: IntegerVariable, VE: IntegerVariable> ElementPropagator<VX, VI, VE> {
-    // NOT under contract (enumerate / filter / fold chain, lazy reasons packed by the bitfield macro): assumed sound
+// ---- the lazily explained bounds of the right-hand side ----
+#[derive(Clone, Copy, PartialEq, Eq, Structural)]
+pub enum Bound { Lower, Upper }
+pub uninterp spec fn payload_bound(code: u64) -> Bound;
+pub uninterp spec fn payload_value(code: u64) -> i32;
+#[derive(Clone, Copy)]
+pub struct RightHandSideReason { pub b: Bound, pub v: i32 }
+impl RightHandSideReason {
     #[verifier::external_body]
-    fn propagate_rhs_bounds_based_on_array(&self, context: &mut PropagationContextMut<'_>) -> (r: PropagationStatusCP)
-        ensures
-            final(context).constraint == old(context).constraint, final(context).reified == old(context).reified,
-            *final(final(context).assignments) == *final(old(context).assignments),
-            prop_monotone(old(context).live(), final(context).live()),
-            prop_sound(old(context).live(), final(context).live(), old(context).constraint@),
-            conflict_ok(final(context).live(), old(context).constraint@, r),
-            err_means_infeasible(old(context).live(), old(context).constraint@, r),
-            r is Ok && !live_empty(old(context).live()) ==> !live_empty(final(context).live()),
-    { unimplemented!() }
+    pub fn new() -> (r: Self) { unimplemented!() }
+    #[verifier::external_body]
+    pub fn with_bound(self, b: Bound) -> (r: Self) ensures r.b == b, r.v == self.v { unimplemented!() }
+    #[verifier::external_body]
+    pub fn with_value(self, v: i32) -> (r: Self) ensures r.v == v, r.b == self.b { unimplemented!() }
+    // the bitfield round trip (bitfield_struct): what is packed is what from_bits(..).bound() / .value() give back
+    #[verifier::external_body]
+    pub fn into_bits(self) -> (r: u64) ensures payload_bound(r) == self.b, payload_value(r) == self.v { unimplemented!() }
+}
+// what the lazy explanation of a code WILL say (unit element_lazy proves that lazy_explanation says exactly this, with the domain of
+// index read at the position of the propagation): it is fixed, per propagator and code, when the reason is stored
+pub uninterp spec fn lazy_holds(code: u64, a: Asg) -> bool;
+pub enum Reason { Eager(PropositionalConjunction), DynamicLazy(u64) }
+impl ReasonLike for Reason {
+    open spec fn holds(&self, a: Asg) -> bool { match self { Reason::Eager(c) => conj_holds(*c, a), Reason::DynamicLazy(code) => lazy_holds(*code, a) } }
+}
+pub open spec fn bound_ok<V: IntegerVariable>(x: &V, code: u64, a: Asg) -> bool {
+    if payload_bound(code) is Lower { x.eval(a) >= payload_value(code) } else { x.eval(a) <= payload_value(code) }
+}
+// per array element: the payload's bound on the element if its index is in the domain of index now, [index != i] otherwise
+pub open spec fn lazy_meaning<VX: IntegerVariable, VI: IntegerVariable, VE: IntegerVariable>(p: &ElementPropagator<VX, VI, VE>, live: Live, code: u64, a: Asg) -> bool {
+    forall|i: int| #![trigger dom_contains(live, &p.index, i)] 0 <= i < p.array@.len() ==>
+        (if dom_contains(live, &p.index, i) { bound_ok(&p.array@[i], code, a) } else { p.index.eval(a) != i })
+}
+pub proof fn lemma_meaning_intro<VX: IntegerVariable, VI: IntegerVariable, VE: IntegerVariable>(p: &ElementPropagator<VX, VI, VE>, live: Live, code: u64, a: Asg)
+    requires forall|i: int| #![trigger dom_contains(live, &p.index, i)] 0 <= i < p.array@.len() ==> (if dom_contains(live, &p.index, i) { bound_ok(&p.array@[i], code, a) } else { p.index.eval(a) != i })
+    ensures lazy_meaning(p, live, code, a)
+{ }
+// the link between the producer of a lazy reason (propagate_rhs_bounds_based_on_array, here) and its consumer (lazy_explanation,
+// unit element_lazy): the explanation of `code`, stored while the store is `live`, is lazy_meaning
+#[verifier::external_body]
+pub proof fn axiom_lazy_link<VX: IntegerVariable, VI: IntegerVariable, VE: IntegerVariable>(p: &ElementPropagator<VX, VI, VE>, live: Live, code: u64)
+    ensures forall|a: Asg| #![trigger lazy_holds(code, a)] lazy_holds(code, a) <==> lazy_meaning(p, live, code, a) {}
+impl<VX: IntegerVariable, VI: IntegerVariable, VE: IntegerVariable> ElementPropagator<VX, VI, VE> {
 //@@EXTRACT el0@@
 //@@EXTRACT el@@
 }
